@@ -186,7 +186,8 @@ BUILTIN_NAMES = {"float", "int", "len", "min", "max", "abs", "pow", "isinstance"
 
 # --------------------------------------------------------------------------- the interpreter
 class Interp:
-    def __init__(self, script=None, registry=None, externals=None, loop_specs=None, config=None):
+    def __init__(self, script=None, registry=None, externals=None, loop_specs=None, config=None, block_specs=None):
+        self.block_specs = block_specs or {}
         self.script: list = list(script or [])
         self.ptr = 0
         self.pc: list = []
@@ -196,7 +197,7 @@ class Interp:
         self.registry = registry or {}
         self.externals = externals or {}
         self.loop_specs = loop_specs or {}
-        self.cfg = dict(max_unroll=12, prune=True, max_depth=60, fork_abs=True)
+        self.cfg = dict(max_unroll=12, prune=True, max_depth=60, fork_abs=False, fork_minmax=False, prune_ms=400)
         self.cfg.update(config or {})
         self._fresh = {}
         self.depth = 0
@@ -235,7 +236,7 @@ class Interp:
             return True
         if cond is sp.false:
             return False
-        if not isinstance(cond, (Boolean, sp.Symbol)):
+        if not isinstance(cond, Boolean) or (isinstance(cond, sp.Symbol) and not cond.name.startswith("?")):
             raise Undecided(f"branch on non-boolean term {cond}")
         i = self.ptr
         self.ptr += 1
@@ -246,7 +247,7 @@ class Interp:
             self.script.append(True)
         self.pc.append(cond if choice else sp.Not(cond))
         if self.cfg["prune"]:
-            if quick_sat(self.pc) == "unsat":
+            if quick_sat(self.pc, self.cfg["prune_ms"]) == "unsat":
                 raise Infeasible()
         return choice
 
@@ -559,7 +560,7 @@ class Interp:
             return False
         if isinstance(v, (BooleanTrue, BooleanFalse)):
             return bool(v)
-        if isinstance(v, Boolean) or (isinstance(v, sp.Symbol) and v.name.startswith("?")):
+        if (isinstance(v, Boolean) and not isinstance(v, sp.Symbol)) or (isinstance(v, sp.Symbol) and v.name.startswith("?")):
             return self.decide(v)
         if isinstance(v, sp.Basic):
             if v.is_number:
@@ -577,8 +578,31 @@ class Interp:
 
     # ---- statements
     def exec_block(self, stmts, env, clo=None):
-        for st in stmts:
-            self.exec(st, env, clo)
+        specs = self.block_specs.get(clo.qualname) if (clo is not None and self.block_specs
+                                                        and stmts is getattr(clo.node, "body", None)) else None
+        if not specs:
+            for st in stmts:
+                self.exec(st, env, clo)
+            return
+        i = 0
+        while i < len(stmts):
+            hit = None
+            for spec in specs:
+                if spec.start(stmts[i]):
+                    j = next((k for k in range(i + 1, len(stmts)) if spec.end(stmts[k])), None)
+                    if j is None:
+                        raise Undecided(f"block contract {spec.name}: end anchor not found in {clo.qualname}")
+                    hit = (spec, j)
+                    break
+            if hit is None:
+                self.exec(stmts[i], env, clo)
+                i += 1
+                continue
+            spec, j = hit
+            spec.check_frame(stmts[i:j])
+            self.event(kind="block-contract", name=spec.name, where=clo.qualname)
+            spec.apply(self, env)
+            i = j
 
     def exec(self, st, env, clo=None):
         m = getattr(self, "x_" + type(st).__name__, None)
@@ -1001,21 +1025,60 @@ class Path:
     inlined: set
     dropped: set
     exc: PyExc | None = None
+    assumed: list = field(default_factory=list)
 
 
-def enumerate_paths(run, registry=None, externals=None, loop_specs=None, config=None, max_paths=4000):
+class BlockSpec:
+    """Contract of a statement range of a function body (DESIGN 2.1, block contracts).  The range runs
+    from the first top-level statement satisfying ``start`` up to (not including) the next one satisfying
+    ``end``.  ``assigns`` is the frame: the only local names the block may assign; it may not store to
+    attributes or subscripts of anything else and may not return.  ``apply(it, env)`` havocs the frame."""
+
+    def __init__(self, name, start, end, assigns, apply, may_call=None):
+        self.name, self.start, self.end, self.assigns, self.apply = name, start, end, set(assigns), apply
+        self.may_call = may_call
+
+    def check_frame(self, stmts):
+        for st in stmts:
+            for n in ast.walk(st):
+                if isinstance(n, (ast.Return, ast.Yield, ast.Global, ast.Nonlocal)):
+                    raise Undecided(f"block contract {self.name}: block contains {type(n).__name__}")
+                if isinstance(n, ast.Name) and isinstance(n.ctx, ast.Store) and n.id not in self.assigns:
+                    raise Undecided(f"block contract {self.name}: block assigns {n.id}, outside its frame {sorted(self.assigns)}")
+                if isinstance(n, ast.Attribute) and isinstance(n.ctx, ast.Store):
+                    raise Undecided(f"block contract {self.name}: block stores to attribute {ast.unparse(n)}")
+                if isinstance(n, ast.Subscript) and isinstance(n.ctx, ast.Store):
+                    root = n.value
+                    while isinstance(root, (ast.Subscript, ast.Attribute)):
+                        root = root.value
+                    if not (isinstance(root, ast.Name) and root.id in self.assigns):
+                        raise Undecided(f"block contract {self.name}: block stores into {ast.unparse(n)}")
+                if self.may_call is not None and isinstance(n, ast.Call):
+                    nm = ast.unparse(n.func)
+                    if nm not in self.may_call:
+                        raise Undecided(f"block contract {self.name}: block calls {nm}, not in the declared callee list")
+
+
+def enumerate_paths(run, registry=None, externals=None, loop_specs=None, config=None, max_paths=4000, block_specs=None):
     """``run(interp)`` builds the pre-state, calls the function and returns (value, state).
     It is re-executed once per path."""
+    import os
+    import time as _time
+    debug = os.environ.get("WGVC_DEBUG")
     paths = []
     script: list = []
     n = 0
+    t0 = _time.time()
     while True:
-        it = Interp(script=script, registry=registry, externals=externals, loop_specs=loop_specs, config=config)
+        if debug and n % 20 == 0 and n:
+            print(f"  [paths] {n} explored, {len(paths)} kept, {_time.time() - t0:.1f}s", flush=True)
+        it = Interp(script=script, registry=registry, externals=externals, loop_specs=loop_specs, config=config,
+                    block_specs=block_specs)
         try:
             value, state = run(it)
-            paths.append(Path("return", value, list(it.pc), it.events, it.obligs, list(it.script), state, it.inlined, it.dropped))
+            paths.append(Path("return", value, list(it.pc), it.events, it.obligs, list(it.script), state, it.inlined, it.dropped, assumed=it.assumed))
         except PyExc as exc:
-            paths.append(Path("raise", None, list(it.pc), it.events, it.obligs, list(it.script), getattr(it, "state", {}), it.inlined, it.dropped, exc=exc))
+            paths.append(Path("raise", None, list(it.pc), it.events, it.obligs, list(it.script), getattr(it, "state", {}), it.inlined, it.dropped, exc=exc, assumed=it.assumed))
         except Infeasible:
             pass
         except PathEnd:
